@@ -63,14 +63,14 @@ def gen_cases(tier, seed, scale=1):
     # sub-tokens as the poller holds them: real composite sources (g = Generic leaf, r = a leaf that asks the factory
     # itself) in a real loop, through update / Reregister post action / disable / enable
     for _ in range(40 if tier == "quick" else 1500):
-        leaves = "".join(rnd.choice("ggr") for _ in range(rnd.randrange(1, 6)))
+        leaves = "".join(rnd.choice("ggrt") for _ in range(rnd.randrange(1, 6)))
         ops, on = [], True
         for _ in range(rnd.randrange(1, 6)):
             op = rnd.choice(["update", "rereg", "disable"]) if on else "enable"
             on = op != "disable"
             ops.append(op)
         lines.append("composite %s %s" % (leaves, ",".join(ops)))
-    for leaves in ("gr", "rg", "grg", "ggr", "rr"):
+    for leaves in ("gr", "rg", "grg", "ggr", "rr", "tg", "gt", "tgr", "gtg", "ttg"):
         lines.append("composite %s update,rereg,disable,enable,update" % leaves)
     return lines
 
@@ -138,9 +138,14 @@ class Monitor:
                     return "an operation on the composite source failed"
                 if kv.get("own") != "true":
                     return "a leaf of the composite source sits in the poller under a key of another source"
+                timers = [str(i) for i, c in enumerate(w[1]) if c == "t"]
+                fired = [x for x in kv.get("fired", "-").split(",") if x != "-"]
+                if any(x not in timers for x in fired):
+                    return ("when the timers of composite %s ran out, the leaves %s were called back: an fd-backed leaf shares a timer leaf's key"
+                            % (w[1], ",".join(fired)))
                 for n, st in enumerate(stages):
                     subs = st.split(",")
-                    live = [s for s in subs if s != "-"]
+                    live = [s for s in subs if s not in ("-", "t")]
                     if len(set(live)) != len(live):
                         return ("after %s the leaves %s of one source sit in the poller under the sub-ids %s: not pairwise distinct"
                                 % ("the insertion" if n == 0 else "`%s`" % w[2].split(",")[n - 1], w[1], st))
